@@ -1,6 +1,7 @@
 package main
 
 import (
+	"strings"
 	"fmt"
 	"go/constant"
 	"go/token"
@@ -23,6 +24,7 @@ type Program struct {
 	pkgs     map[string]*ssa.Package
 	fnInfos  sync.Map // *ssa.Function -> *fnInfo
 	initPkgs []*ssa.Package
+	harnessFn sync.Map
 	implMu   sync.Mutex
 	impl     map[[2]types.Type]bool
 	sizes    types.Sizes
@@ -748,7 +750,7 @@ func (x *Exec) jump(fr *Frame, to *ssa.BasicBlock) {
 		fr.visits = map[*ssa.BasicBlock]int{}
 	}
 	fr.visits[to]++
-	if fr.visits[to] > x.H.Unwind {
+	if fr.visits[to] > x.H.Unwind && (fr.visits[to] > 100*x.H.Unwind || !x.isHarnessFn(fr.fn)) {
 		x.end("unwind", fmt.Sprintf("unwind bound %d exceeded in %s block %d", x.H.Unwind, fr.fn, to.Index))
 	}
 	// phis
@@ -775,6 +777,18 @@ func (x *Exec) jump(fr *Frame, to *ssa.BasicBlock) {
 	fr.prev = from
 	fr.block = to
 	fr.pc = n
+}
+
+func (x *Exec) isHarnessFn(fn *ssa.Function) bool {
+	if v, ok := x.P.harnessFn.Load(fn); ok {
+		return v.(bool)
+	}
+	r := strings.Contains(x.P.ssa.Fset.Position(fn.Pos()).Filename, "zz_verif_")
+	if fn.Parent() != nil {
+		r = x.isHarnessFn(fn.Parent())
+	}
+	x.P.harnessFn.Store(fn, r)
+	return r
 }
 
 func (x *Exec) prepareCall(fr *Frame, cc *ssa.CallCommon) (Value, []Value) {
